@@ -294,24 +294,6 @@ func viewUpTo(log []c14Group, n int) []rkv {
 	return out
 }
 
-// splitByCut: some response cut (first 100 entries with seq >= s, for a start number s) falls
-// strictly inside one sequence group of the log.
-func splitByCut(log []c14Group) bool {
-	for s := range log {
-		n := 0
-		for _, g := range log[s:] {
-			if n < 100 && n+len(g.ops) > 100 {
-				return true
-			}
-			n += len(g.ops)
-			if n >= 100 {
-				break
-			}
-		}
-	}
-	return false
-}
-
 func describeDiff(p, r []rkv) string {
 	pm := map[string][]byte{}
 	for _, x := range p {
@@ -413,8 +395,6 @@ func (r *c14Run) settle() {
 	switch {
 	case r.rotated:
 		r.kfs["primary_rotated_wal_after_start"] = true
-	case splitByCut(r.log):
-		r.kfs["transaction_split_by_fetch_cut"] = true
 	case n >= 1 && len(sess) == 1 && fmt.Sprint(sess[0]["start_sequence"]) == fmt.Sprint(n) && scansEqual(rs, viewUpTo(r.log, n-1)):
 		// the session started at the number of the last write and the replica holds everything before it
 		r.kfs["last_write_equals_session_start"] = true
@@ -744,22 +724,6 @@ func (g *c14Gen) many(n int) {
 	}
 }
 
-func (g *c14Gen) cutsOK() bool {
-	for s := range g.seqs {
-		n := 0
-		for _, k := range g.seqs[s:] {
-			if n < 100 && n+k > 100 {
-				return false
-			}
-			n += k
-			if n >= 100 {
-				break
-			}
-		}
-	}
-	return true
-}
-
 func genC14(w *bufio.Writer, seed int64, n int, tier string) {
 	r := rand.New(rand.NewSource(seed*7919 + 14))
 	bound := 12
@@ -771,7 +735,7 @@ func genC14(w *bufio.Writer, seed int64, n int, tier string) {
 			g := &c14Gen{r: r, w: w, keys: 4 + r.Intn(6)}
 			shape := i % 4
 			if i >= 4 {
-				shape = r.Intn(6)
+				shape = r.Intn(7)
 			}
 			switch shape {
 			case 0: // replica first, then two bursts
@@ -820,6 +784,17 @@ func genC14(w *bufio.Writer, seed int64, n int, tier string) {
 				g.burst(2, 6)
 				g.emit("start")
 				g.emit("settle")
+			case 6: // transactions around and beyond the 100-entry response limit (f62340e)
+				g.many(95 + r.Intn(8))
+				g.burst(2, 4)
+				g.nkey++
+				g.emit(fmt.Sprintf("bigtx %d %s", 90+r.Intn(40), mkTok([]byte(fmt.Sprintf("t%d-", g.nkey)))))
+				g.seqs = append(g.seqs, 100)
+				g.burst(2, 4)
+				g.emit("join")
+				g.emit("settle")
+				g.burst(2, 3)
+				g.emit("settle")
 			case 5: // cut while the replica is catching up on a long history
 				g.many(150 + r.Intn(100))
 				g.emit("join")
@@ -827,9 +802,6 @@ func genC14(w *bufio.Writer, seed int64, n int, tier string) {
 				g.burst(2, 5)
 				g.emit("heal")
 				g.emit("settle")
-			}
-			if !g.cutsOK() {
-				continue
 			}
 			fmt.Fprintf(w, "case g%d-%d bound=%d retry=300\n", seed, i, bound)
 			for _, l := range g.lines {
